@@ -211,15 +211,16 @@ def steps(ctx, prog):
             b = ctx.anchor(prog, CM + ty + "::" + m)
             if b is None:
                 continue
-            paths = sym.paths_of(b, prog)
+            # split_at(s, at) is (str_up_to(s, at), str_from(s, at)): look inside, so that both spellings compare equal
+            paths = sym.paths_of(b, prog, inline={S + "split_at"})
             for p in paths:
                 p.conds = tuple(table.strip_gargs(c) for c in p.conds)
             if m == "next":
                 at = ("call", KS + "__find_next_char_boundary", None, ("as_bytes", this), Int(0))
             else:
                 at = ("call", KS + "__find_prev_char_boundary", None, ("as_bytes", this), ("len", this))
-            sp = ("call", S + "split_at", None, this, at)
-            piece, rest = (("field", sp, 0), ("field", sp, 1)) if m == "next" else (("field", sp, 1), ("field", sp, 0))
+            up_to, from_ = ("call", KS + "str_up_to", None, this, at), ("call", KS + "str_from", None, this, at)
+            piece, rest = (up_to, from_) if m == "next" else (from_, up_to)
             ch = ("call", CM + "string_to_char", None, piece)
             if with_off:
                 item = table.Tuple(off, ch) if m == "next" else table.Tuple(("bin", "Add", off, at), ch)
